@@ -56,3 +56,353 @@ Proof.
   split; [apply words_okb_ok; reflexivity|].
   vm_compute. intuition congruence.
 Qed.
+
+(** * widened (a): every [i], [end] - the exact panic sets - and the int32 arithmetic *)
+From Low Require Import Lib.MachInt Model.BitmapNext32 Spec.NextTotalSpec Proofs.NextTotal.
+
+(** NextOne for EVERY [i], [end]: panics iff [i] is not a position of the bitmap, or [end] is beyond the
+    bitmap and no 1-bit at or after [i] stops the scan; otherwise the first 1-bit of [i, end) or -1
+    (-1 for every [end < i]).  [spec_NextOne_any] is Spec/NextTotalSpec.v. *)
+Theorem C13_NextOne_any : forall bm, words_ok bm -> forall i e,
+  NextOne bm i e = spec_NextOne_any bm i e.
+Proof. exact NextOne_any. Qed.
+Print Assumptions C13_NextOne_any.
+
+(** PrevOne for EVERY [i], [end]: panics iff [end - 1] is not a position of the bitmap, or [i] is negative
+    and there is no 1-bit below [end]; [i] is never used as an index ([i >= end], also beyond the
+    bitmap, gives -1). *)
+Theorem C13_PrevOne_any : forall bm, words_ok bm -> forall i e,
+  PrevOne bm i e = spec_PrevOne_any bm i e.
+Proof. exact PrevOne_any. Qed.
+Print Assumptions C13_PrevOne_any.
+
+(** the same, as the sets of panicking arguments in terms of single bits *)
+Theorem C13_NextOne_panics_iff : forall bm, words_ok bm -> forall i e,
+  NextOne bm i e = None <->
+  (i < 0 \/ 64 * zlen bm <= i \/
+   (64 * zlen bm < e /\ forall p, i <= p < 64 * zlen bm -> bitz (flat bm) p = false)).
+Proof. exact NextOne_panics_iff. Qed.
+Print Assumptions C13_NextOne_panics_iff.
+
+Theorem C13_PrevOne_panics_iff : forall bm, words_ok bm -> forall i e,
+  PrevOne bm i e = None <->
+  (e < 1 \/ 64 * zlen bm < e \/ (i < 0 /\ forall p, 0 <= p < e -> bitz (flat bm) p = false)).
+Proof. exact PrevOne_panics_iff. Qed.
+Print Assumptions C13_PrevOne_panics_iff.
+
+(** the model with every int32 wrap written out (Model/BitmapNext32.v: [i+63], [i += 64], [wordIdx<<6 + tz],
+    [end--], [(end & ^63) - 1], [end -= 64], [end - lz]) IS the unbounded model, for every int32 [i], [end]
+    (also negative, beyond the bitmap, [end = MinInt32] where [end--] wraps) while [64 * len < 2^31] *)
+Theorem C13_int32_agree : forall bm, words_ok bm -> 64 * zlen bm < 2^31 -> forall i e,
+  in_i32 i -> in_i32 e ->
+  NextOne32 bm i e = NextOne bm i e /\ PrevOne32 bm i e = PrevOne bm i e.
+Proof. exact (fun bm Hok Hs i e Hi He => conj (NextOne32_eq bm Hok Hs i e Hi) (PrevOne32_eq bm Hok Hs i e Hi He)). Qed.
+Print Assumptions C13_int32_agree.
+
+(** hence the property itself, of the int32 model *)
+Theorem C13_NextOne32 : forall bm, words_ok bm -> 64 * zlen bm < 2^31 -> forall i e,
+  0 <= i <= e -> e <= 64 * zlen bm -> i < 64 * zlen bm ->
+  NextOne32 bm i e = Some (spec_NextOne bm i e).
+Proof. exact NextOne32_exact. Qed.
+Print Assumptions C13_NextOne32.
+
+Theorem C13_PrevOne32 : forall bm, words_ok bm -> 64 * zlen bm < 2^31 -> forall i e,
+  0 <= i <= e -> e <= 64 * zlen bm -> i < 64 * zlen bm -> 1 <= e ->
+  PrevOne32 bm i e = Some (spec_PrevOne bm i e).
+Proof. exact PrevOne32_exact. Qed.
+Print Assumptions C13_PrevOne32.
+
+(** non-vacuity: panics and non-panics outside the domain; the int32 model on the MinInt32 corner *)
+Example C13_any_nonvacuous :
+  words_ok [0; 4; 0] /\ 64 * zlen [0; 4; 0] < 2^31 /\
+  NextOne [0; 4; 0] 3 1000 = Some 66 /\ spec_NextOne_any [0; 4; 0] 3 1000 = Some 66 /\   (* end beyond, a 1-bit stops the scan *)
+  NextOne [0; 4; 0] 67 193 = None /\ spec_NextOne_any [0; 4; 0] 67 193 = None /\         (* end beyond, nothing stops it *)
+  NextOne [0; 4; 0] 67 192 = Some (-1) /\
+  NextOne [0; 4; 0] 67 5 = Some (-1) /\                                                  (* end < i *)
+  NextOne [0; 4; 0] (-1) 5 = None /\ NextOne [0; 4; 0] 192 192 = None /\
+  PrevOne [0; 4; 0] (-5) 192 = Some 66 /\ PrevOne [0; 4; 0] (-5) 66 = None /\            (* negative i *)
+  PrevOne [0; 4; 0] 0 66 = Some (-1) /\ PrevOne [0; 4; 0] 500 192 = Some (-1) /\         (* i beyond the bitmap *)
+  PrevOne [0; 4; 0] 0 0 = None /\ PrevOne [0; 4; 0] 0 193 = None /\
+  in_i32 (- 2^31) /\ PrevOne32 [0; 4; 0] 0 (- 2^31) = None /\ PrevOne [0; 4; 0] 0 (- 2^31) = None /\
+  NextOne32 [0; 4; 0] 3 (2^31 - 1) = Some 66 /\ NextOne32 [0; 4; 0] (- 2^31) 5 = None.
+Proof.
+  split; [apply words_okb_ok; reflexivity|].
+  vm_compute. intuition congruence.
+Qed.
+
+(** * widened (b): laws of NextOne / PrevOne as callers combine them
+    (NextOne / PrevOne of a Slice: C14_Slice_NextOne / C14_Slice_PrevOne; against Select and Rank: C02_NextOne_* / C02_*_then_PrevOne) *)
+From Low Require Import Model.BitmapNextIter Model.BitmapOf Proofs.NextLaws.
+
+(** walking a range with NextOne ([for i < end { p := NextOne(bm,i,end); if p < 0 {break}; ...; i = p+1 }])
+    visits exactly the 1-bits of the range, ascending, and never panics *)
+Theorem C13_IterNext : forall bm, words_ok bm -> forall i e,
+  0 <= i <= e -> e <= 64 * zlen bm ->
+  IterNext bm i e = Some (ones_in bm i e).
+Proof. exact IterNext_exact. Qed.
+Print Assumptions C13_IterNext.
+
+(** walking it with PrevOne ([for end > i { p := PrevOne(bm,i,end); if p < 0 {break}; ...; end = p }])
+    visits the same 1-bits in descending order *)
+Theorem C13_IterPrev : forall bm, words_ok bm -> forall i e,
+  0 <= i <= e -> e <= 64 * zlen bm ->
+  IterPrev bm i e = Some (rev (ones_in bm i e)).
+Proof. exact IterPrev_exact. Qed.
+Print Assumptions C13_IterPrev.
+
+(** over the whole bitmap the two walks are ToArray (C12's model of toarray.go) and its reverse *)
+Theorem C13_Iter_ToArray : forall bm, words_ok bm ->
+  IterNext bm 0 (64 * zlen bm) = ToArray bm /\
+  IterPrev bm 0 (64 * zlen bm) = option_map (@rev Z) (ToArray bm).
+Proof. exact (fun bm Hok => conj (IterNext_ToArray bm Hok) (IterPrev_ToArray bm Hok)). Qed.
+Print Assumptions C13_Iter_ToArray.
+
+(** duality, on a non-empty range: with [n = NextOne(bm,i,end)], [p = PrevOne(bm,i,end)]:
+    [PrevOne(bm,i,n+1) = n], [NextOne(bm,p,end) = p], nothing before [n] ([PrevOne(bm,i,n) = -1]),
+    nothing after [p] ([NextOne(bm,p+1,end) = -1]); [n = -1] iff [p = -1]; otherwise [i <= n <= p < end] *)
+Theorem C13_NextPrevDual : forall bm, words_ok bm -> forall i e,
+  0 <= i < e -> e <= 64 * zlen bm ->
+  let sn := spec_NextOne bm i e in
+  let sp := spec_PrevOne bm i e in
+  NextPrevDual bm i e = Some [sn; sp; sn; sp; -1; -1] /\
+  (sn = -1 <-> sp = -1) /\ (sn <> -1 -> i <= sn <= sp /\ sp < e).
+Proof. exact NextPrevDual_exact. Qed.
+Print Assumptions C13_NextPrevDual.
+
+(** a shorter range clips the result of a longer one: NextOne in [end], PrevOne in [i] *)
+Theorem C13_NextOne_shrink_end : forall bm, words_ok bm -> forall i e e',
+  0 <= i <= e -> e <= e' -> e' <= 64 * zlen bm -> i < 64 * zlen bm ->
+  NextOne bm i e = option_map (fun r => if (0 <=? r) && (r <? e) then r else -1) (NextOne bm i e').
+Proof. exact NextOne_shrink_end. Qed.
+Print Assumptions C13_NextOne_shrink_end.
+
+Theorem C13_PrevOne_grow_start : forall bm, words_ok bm -> forall i i' e,
+  0 <= i <= i' -> i' <= e -> e <= 64 * zlen bm -> i' < 64 * zlen bm -> 1 <= e ->
+  PrevOne bm i' e = option_map (fun r => if i' <=? r then r else -1) (PrevOne bm i e).
+Proof. exact PrevOne_grow_start. Qed.
+Print Assumptions C13_PrevOne_grow_start.
+
+(** moving the end the search starts from: the result is kept while it stays in the range, and
+    otherwise moves only in the direction of the search (monotone in [i] resp. [end]) *)
+Theorem C13_NextOne_advance_start : forall bm, words_ok bm -> forall i i' e r r',
+  0 <= i <= i' -> i' <= e -> e <= 64 * zlen bm -> i' < 64 * zlen bm ->
+  NextOne bm i e = Some r -> NextOne bm i' e = Some r' ->
+  (r = -1 -> r' = -1) /\ (i' <= r -> r' = r) /\ (r' <> -1 -> r <> -1 /\ r <= r').
+Proof. exact NextOne_advance_start. Qed.
+Print Assumptions C13_NextOne_advance_start.
+
+Theorem C13_PrevOne_retreat_end : forall bm, words_ok bm -> forall i e e' r r',
+  0 <= i <= e' -> e' <= e -> e <= 64 * zlen bm -> i < 64 * zlen bm -> 1 <= e' ->
+  PrevOne bm i e = Some r -> PrevOne bm i e' = Some r' ->
+  (r = -1 -> r' = -1) /\ (r < e' -> r' = r) /\ (r' <> -1 -> r <> -1 /\ r' <= r).
+Proof. exact PrevOne_retreat_end. Qed.
+Print Assumptions C13_PrevOne_retreat_end.
+
+(** non-vacuity: a bitmap with an all-zero word between its 1-bits; walks over a sub-range and the whole,
+    the duality bundle with distinct first / last, clipping and monotonicity instances that change the result *)
+Example C13_laws_nonvacuous :
+  words_ok [2^63 + 1; 0; 6] /\
+  IterNext [2^63 + 1; 0; 6] 1 130 = Some [63; 129] /\ ones_in [2^63 + 1; 0; 6] 1 130 = [63; 129] /\
+  IterPrev [2^63 + 1; 0; 6] 1 130 = Some [129; 63] /\
+  IterNext [2^63 + 1; 0; 6] 0 192 = Some [0; 63; 129; 130] /\ ToArray [2^63 + 1; 0; 6] = Some [0; 63; 129; 130] /\
+  IterPrev [2^63 + 1; 0; 6] 0 192 = Some [130; 129; 63; 0] /\
+  NextPrevDual [2^63 + 1; 0; 6] 1 131 = Some [63; 130; 63; 130; -1; -1] /\
+  NextPrevDual [2^63 + 1; 0; 6] 64 129 = Some [-1; -1; -1; -1; -1; -1] /\
+  NextOne [2^63 + 1; 0; 6] 64 192 = Some 129 /\ NextOne [2^63 + 1; 0; 6] 64 129 = Some (-1) /\
+  PrevOne [2^63 + 1; 0; 6] 0 129 = Some 63 /\ PrevOne [2^63 + 1; 0; 6] 64 129 = Some (-1) /\
+  NextOne [2^63 + 1; 0; 6] 0 192 = Some 0 /\ NextOne [2^63 + 1; 0; 6] 1 192 = Some 63.
+Proof.
+  split; [apply words_okb_ok; reflexivity|].
+  vm_compute. intuition congruence.
+Qed.
+
+(** * widened (b), continued: against the other readers of the package - Get1 (get.go), Rank64 (rank.go) *)
+From Low Require Import Model.Rank Model.BitmapNextReaders Proofs.NextCount.
+
+(** the position NextOne returns reads 1 with Get1 and every position it stepped over reads 0;
+    -1 means that every position of the range reads 0 *)
+Theorem C13_NextOne_Get1 : forall bm, words_ok bm -> forall i e r,
+  0 <= i <= e -> e <= 64 * zlen bm -> i < 64 * zlen bm ->
+  NextOne bm i e = Some r -> r <> -1 ->
+  i <= r < e /\ Get1 bm r = Some 1 /\ forall p, i <= p < r -> Get1 bm p = Some 0.
+Proof. exact NextOne_Get1. Qed.
+Print Assumptions C13_NextOne_Get1.
+
+Theorem C13_NextOne_none_Get1 : forall bm, words_ok bm -> forall i e,
+  0 <= i <= e -> e <= 64 * zlen bm -> i < 64 * zlen bm ->
+  NextOne bm i e = Some (-1) -> forall p, i <= p < e -> Get1 bm p = Some 0.
+Proof. exact NextOne_none_Get1. Qed.
+Print Assumptions C13_NextOne_none_Get1.
+
+Theorem C13_PrevOne_Get1 : forall bm, words_ok bm -> forall i e r,
+  0 <= i <= e -> e <= 64 * zlen bm -> i < 64 * zlen bm -> 1 <= e ->
+  PrevOne bm i e = Some r -> r <> -1 ->
+  i <= r < e /\ Get1 bm r = Some 1 /\ forall p, r < p < e -> Get1 bm p = Some 0.
+Proof. exact PrevOne_Get1. Qed.
+Print Assumptions C13_PrevOne_Get1.
+
+(** the bundle the harness runs ([bitmap.Next/Get1]) *)
+Theorem C13_NextGet1 : forall bm, words_ok bm -> forall i e, 0 <= i < e -> e <= 64 * zlen bm ->
+  let sn := spec_NextOne bm i e in
+  let sp := spec_PrevOne bm i e in
+  NextGet1 bm i e = Some [sn; if sn =? -1 then -1 else 1; sp; if sp =? -1 then -1 else 1].
+Proof. exact NextGet1_exact. Qed.
+Print Assumptions C13_NextGet1.
+
+(** the number of 1-bits of a range is a difference of ranks, so a walk of [i, end) with NextOne (or PrevOne)
+    takes exactly [Rank64(end) - Rank64(i)] rounds (rank.go's index, C01's model) *)
+Theorem C13_walk_count_Rank64 : forall bm, words_ok bm -> forall tr i e l ri bi re be,
+  0 <= i <= e -> e < 64 * zlen bm ->
+  IterNext bm i e = Some l ->
+  Rank64 bm (IndexRank64 bm tr) i = Some (ri, bi) -> Rank64 bm (IndexRank64 bm tr) e = Some (re, be) ->
+  zlen l = re - ri.
+Proof. exact IterNext_count_Rank64. Qed.
+Print Assumptions C13_walk_count_Rank64.
+
+(** the bundle the harness runs ([bitmap.Next/count]) *)
+Theorem C13_WalkCount : forall bm, words_ok bm -> forall tr i e, 0 <= i <= e -> e < 64 * zlen bm ->
+  let c := zlen (ones_in bm i e) in
+  WalkCount bm tr i e = Some [c; c; c].
+Proof. exact WalkCount_exact. Qed.
+Print Assumptions C13_WalkCount.
+
+Example C13_readers_nonvacuous :
+  words_ok [2^63 + 1; 0; 6] /\
+  NextGet1 [2^63 + 1; 0; 6] 1 131 = Some [63; 1; 130; 1] /\
+  NextGet1 [2^63 + 1; 0; 6] 64 129 = Some [-1; -1; -1; -1] /\
+  Get1 [2^63 + 1; 0; 6] 63 = Some 1 /\ Get1 [2^63 + 1; 0; 6] 62 = Some 0 /\
+  WalkCount [2^63 + 1; 0; 6] true 1 131 = Some [3; 3; 3] /\
+  WalkCount [2^63 + 1; 0; 6] false 0 191 = Some [4; 4; 4] /\
+  Rank64 [2^63 + 1; 0; 6] (IndexRank64 [2^63 + 1; 0; 6] false) 131 = Some (4, 0).
+Proof.
+  split; [apply words_okb_ok; reflexivity|].
+  vm_compute. intuition congruence.
+Qed.
+
+(** * widened: build with Of (of.go), walk with NextOne / PrevOne *)
+From Coq Require Import Sorted.
+From Low Require Import Proofs.NextOf.
+
+(** for strictly ascending non-negative positions, the NextOne walk of [Of(ps, n)] returns [ps] and the
+    PrevOne walk returns [rev ps] (any size argument) *)
+Theorem C13_Of_walk : forall ps opt,
+  StronglySorted Z.lt ps -> (forall p, In p ps -> 0 <= p) ->
+  OfWalk ps opt = Some (ps, rev ps).
+Proof. exact OfWalk_exact. Qed.
+Print Assumptions C13_Of_walk.
+
+Example C13_Of_walk_nonvacuous :
+  StronglySorted Z.lt [0; 63; 64; 200] /\
+  OfWalk [0; 63; 64; 200] (Some 130) = Some ([0; 63; 64; 200], [200; 64; 63; 0]) /\
+  Of [0; 63; 64; 200] (Some 130) = Some [2^63 + 1; 1; 0; 256] /\
+  OfWalk [] (Some 70) = Some ([], []).
+Proof.
+  split; [repeat constructor; reflexivity|]. vm_compute. intuition congruence.
+Qed.
+
+(** * widened: the NextOne walk against select.go (C02's models) *)
+From Low Require Import Model.Select Proofs.NextSelect.
+
+(** Select32 / Select32R64 index into the NextOne walk of the whole bitmap: for index [k] they return the
+    [k]-th 1-bit the walk visits and the one visited next ([64 * len] after the last) *)
+Theorem C13_Select32_nth_walk : forall ws sidx l k, words_ok ws -> IndexSelect32 ws = Some sidx ->
+  IterNext ws 0 (64 * zlen ws) = Some l -> 0 <= k < zlen l ->
+  Select32 ws sidx k =
+  Some (nth (Z.to_nat k) l 0, if k + 1 <? zlen l then nth (Z.to_nat (k + 1)) l 0 else 64 * zlen ws).
+Proof. exact Select32_nth_walk. Qed.
+Print Assumptions C13_Select32_nth_walk.
+
+Theorem C13_Select32R64_nth_walk : forall ws sidx ridx l k, words_ok ws ->
+  IndexSelect32R64 ws = Some (sidx, ridx) ->
+  IterNext ws 0 (64 * zlen ws) = Some l -> 0 <= k < zlen l ->
+  Select32R64 ws sidx ridx k =
+  Some (nth (Z.to_nat k) l 0, if k + 1 <? zlen l then nth (Z.to_nat (k + 1)) l 0 else 64 * zlen ws).
+Proof. exact Select32R64_nth_walk. Qed.
+Print Assumptions C13_Select32R64_nth_walk.
+
+(** the bundle the harness runs ([bitmap.Next/Select32]); never panics *)
+Theorem C13_WalkSelect : forall ws, words_ok ws ->
+  let o := ones (flat ws) in
+  WalkSelect ws = Some (o, sel_pairs o (64 * zlen ws), sel_pairs o (64 * zlen ws)).
+Proof. exact WalkSelect_exact. Qed.
+Print Assumptions C13_WalkSelect.
+
+Example C13_WalkSelect_nonvacuous :
+  words_ok [2^63 + 1; 0; 6] /\
+  WalkSelect [2^63 + 1; 0; 6] =
+    Some ([0; 63; 129; 130], [(0, 63); (63, 129); (129, 130); (130, 192)], [(0, 63); (63, 129); (129, 130); (130, 192)]) /\
+  sel_pairs [0; 63; 129; 130] 192 = [(0, 63); (63, 129); (129, 130); (130, 192)] /\
+  WalkSelect [] = Some ([], [], []).
+Proof.
+  split; [apply words_okb_ok; reflexivity|].
+  vm_compute. intuition congruence.
+Qed.
+
+(** * widened: cut a range out with Slice (slice.go, C14's model), walk the result *)
+From Low Require Import Model.BitmapJoin Proofs.NextSlice.
+
+(** the NextOne walk of [Slice(bm, from, to)] returns the 1-bits of [from, to) shifted to start at 0, the PrevOne
+    walk the same list reversed (single NextOne / PrevOne calls on a slice: C14_Slice_NextOne / C14_Slice_PrevOne) *)
+Theorem C13_Slice_walk : forall ws from to, words_ok ws -> 0 <= from <= to -> to <= 64 * zlen ws ->
+  let l := map (fun p => p - from) (ones_in ws from to) in
+  SliceWalk ws from to = Some (l, rev l).
+Proof. exact SliceWalk_exact. Qed.
+Print Assumptions C13_Slice_walk.
+
+Example C13_Slice_walk_nonvacuous :
+  words_ok [2^63 + 1; 0; 6] /\
+  SliceWalk [2^63 + 1; 0; 6] 63 131 = Some ([0; 66; 67], [67; 66; 0]) /\
+  Slice [2^63 + 1; 0; 6] 63 131 = Some [1; 12] /\
+  SliceWalk [2^63 + 1; 0; 6] 64 129 = Some ([], []).
+Proof.
+  split; [apply words_okb_ok; reflexivity|].
+  vm_compute. intuition congruence.
+Qed.
+
+(** * the anchor in mask.go: the table reads of next.go *)
+From Low Require Import Model.BitmapMask Proofs.NextMask.
+
+(** [RMask[i & 63]] and [MaskUpto[end & 63]] read from the tables filled by [initMasks] (Model/BitmapMask.v, uint64
+    arithmetic written out) never panic and are the closed forms Model/BitmapNext.v writes for them *)
+Theorem C13_mask_reads : forall x,
+  nthZ (tRMask initMasks) (Z.land x 63) = Some (RMask (Z.land x 63)) /\
+  nthZ (tMaskUpto initMasks) (Z.land x 63) = Some (MaskUpto (Z.land x 63)).
+Proof. exact next_mask_reads. Qed.
+Print Assumptions C13_mask_reads.
+
+Example C13_mask_reads_nonvacuous :
+  nthZ (tRMask initMasks) (Z.land 127 63) = Some (2^64 - 2^63) /\
+  nthZ (tMaskUpto initMasks) (Z.land (-1) 63) = Some (2^64 - 1) /\
+  nthZ (tMaskUpto initMasks) 64 = None.
+Proof. vm_compute. intuition congruence. Qed.
+
+(** * the protocol operations of ./check C13 against the theorems above *)
+From Coq Require String.
+From Low Require Import Lib.Val Run.C13 Proofs.NextRunProofs.
+
+(** for EVERY argument list, each of the 18 operations of [ops_C13] (Run/C13.v, Run/NextWide.v) either rejects the
+    arguments as malformed / outside its domain ([VBad]) or produces a model output that its specification side
+    accepts: the functions the driver evaluates are exactly the ones the theorems of this file are about *)
+Theorem C13_ops_model_satisfies_spec : Forall op_ok ops_C13.
+Proof. exact ops_C13_model_satisfies_spec. Qed.
+Print Assumptions C13_ops_model_satisfies_spec.
+
+(** hence no C13 case can be judged MODELBUG: a disagreement is always about the implementation *)
+Theorem C13_never_modelbug : forall d args obs, In d ops_C13 -> fst (judge_op d args obs) <> J_MODELBUG.
+Proof. exact C13_never_modelbug. Qed.
+Print Assumptions C13_never_modelbug.
+
+Example C13_ops_nonvacuous :
+  List.length ops_C13 = 18%nat /\
+  (exists d, In d ops_C13 /\
+     op_run d [VL [VL [VZ 1; VZ 4]]; VZ 3; VZ 128] = VZ 66 /\
+     op_spec d [VL [VL [VZ 1; VZ 4]]; VZ 3; VZ 128] (VZ 66) = true /\
+     op_spec d [VL [VL [VZ 1; VZ 4]]; VZ 3; VZ 128] (VZ 67) = false) /\
+  (exists d, In d ops_C13 /\ op_run d [] = VBad).
+Proof.
+  split; [reflexivity|]. split.
+  - exists (nth 4 ops_C13 (Build_opdef String.EmptyString (fun _ => VBad) (fun _ _ => false))).
+    split; [apply nth_In; vm_compute; repeat constructor|]. vm_compute. auto.
+  - exists (nth 0 ops_C13 (Build_opdef String.EmptyString (fun _ => VBad) (fun _ _ => false))).
+    split; [apply nth_In; vm_compute; repeat constructor|]. reflexivity.
+Qed.
